@@ -95,8 +95,22 @@ def gen_doc(rng) -> str:
             blocks.append("> " + t1.replace("\n", "\n> "))
         elif r < 0.8:
             blocks.append("```\n" + t1 + "\n```")
-        elif r < 0.9:
+        elif r < 0.86:
             blocks.append("| a | b |\n|---|---|\n| " + t1.replace("\n", " ").replace("|", "/") + " | \"q\" |")
+        elif r < 0.9:
+            # several paragraphs in one container, the quotes balance only across them: pairing must stay inside each paragraph
+            a, b = rng.choice([("she said \"open and", "then close\" it"), ("an 'opening here", "and a closing' there"), ("\"one", "two\""), ("x \"a b", "c d\" y")])
+            k = rng.choice(["quote", "item", "items", "quote-list", "footnote"])
+            if k == "quote":
+                blocks.append("> " + a + "\n>\n> " + b)
+            elif k == "item":
+                blocks.append("- " + a + "\n\n  " + b)
+            elif k == "items":
+                blocks.append("- " + a + "\n- " + b)
+            elif k == "quote-list":
+                blocks.append("> - " + a + "\n> - " + b)
+            else:
+                blocks.append("note[^q]\n\n[^q]: " + a + "\n\n    " + b)
         else:
             blocks.append("*" + t1.replace("\n", " ").replace("*", "") + "* and `code 'q' \"r\"` and [l \"x\"](http://u/'a' \"ti'tle\")")
     return "\n\n".join(blocks) + "\n"
@@ -174,6 +188,11 @@ def run(chk: Check) -> None:
             chk.fail("property", {"doc": doc, "opts": o, "off": off, "on": on}, "smartquotes on vs off: " + why, classify)
         if i < 2:
             chk.sample({"doc": doc[:200], "opts": o, "on": on[:200]})
+    # ---- the pipeline model (per-paragraph rewrite scope, Props/C08.v theorem 6) against the implementation with the option on ----
+    import docports
+    pc = [{"doc": gen_doc(rng), "opts": dict(width=rng.choice([0, 30, 88]), semantic=rng.random() < 0.5, cleanups=False, smartquotes=True,
+                                               ellipses=rng.random() < 0.3, list_spacing="preserve")} for _ in range(120 if tier == "quick" else 1500)]
+    docports.run_fill_port(chk, pc)
     for fid, doc in REPRO.items():
         o = dict(width=88, semantic=False, cleanups=False, ellipses=False)
         off, on = reformat_text(doc, smartquotes=False, **o), reformat_text(doc, smartquotes=True, **o)
